@@ -228,6 +228,7 @@ def run(ctx):
     derived_and_separator(ctx)
     occurrences_roots_and_independence(ctx)
     nested_children_like_their_type(ctx)
+    builtin_typed_names_and_bare_simple_content(ctx)
     answers = ctx.driver.ask(reqs)
     for ans, (meta, got, exp) in zip(answers, metas):
         model = SM.py_canon_model(ans)
@@ -549,6 +550,33 @@ def nested_children_like_their_type(ctx):
         got = "%s: %s" % (type(e).__name__, e)
     if got != [["first", "q", "last"]] * 2:
         ctx.fail("factory object does not mirror the type's content model", meta, got, [["first", "q", "last"]] * 2, kind="special")
+
+
+def builtin_typed_names_and_bare_simple_content(ctx):
+    """An element, a child or an attribute step whose type is a built-in is created as an object named after the
+    ELEMENT / child / attribute (not after the built-in); a simpleContent type over a built-in that declares no
+    attribute has no members at all, alone and as a pre-built child."""
+    T = "{%s}" % wsdlkit.TNS
+    schema = ('<xsd:complexType name="M0"><xsd:simpleContent><xsd:extension base="xsd:decimal"/></xsd:simpleContent>'
+              '</xsd:complexType><xsd:complexType name="Occ2"><xsd:sequence><xsd:element name="a" type="xsd:string"/>'
+              '<xsd:element name="m" type="x:M0"/></xsd:sequence><xsd:attribute name="id" type="xsd:boolean"/></xsd:complexType>'
+              '<xsd:element name="H" type="xsd:string"/><xsd:element name="N" type="xsd:int"/><xsd:element name="f">'
+              '<xsd:complexType><xsd:sequence><xsd:element name="o" type="x:Occ2"/></xsd:sequence></xsd:complexType></xsd:element>')
+    c = wsdlkit.client(wsdlkit.wsdl_doc(schema, "f", None), nosend=True)
+    want = {"M0": ["M0", []], "Occ2": ["Occ2", ["a", "m", "_id"]], "H": ["H", []], "N": ["N", []], "Occ2.a": ["a", []],
+            "Occ2.@id": ["id", []], "Occ2.m": ["M0", []], "f.o": ["Occ2", ["a", "m", "_id"]], "f.o.m": ["M0", []]}
+    for name, exp in want.items():
+        meta = {"stream": "builtin-typed-names", "name": name}
+        ctx.case(common.canon(meta), True)
+        try:
+            o = c.factory.create(T + name)
+            got = [type(o).__name__, [str(k) for k, _v in o]]
+        except Exception as e:
+            got = "%s: %s" % (type(e).__name__, e)
+        if got != exp:
+            ctx.fail("factory object does not mirror the type's content model", meta, got, exp, kind="special")
+    from harness.props import c07
+    c07.attributes_inline_or_by_group(ctx)       # (member order of a type derived by extension from one with attributes)
 
 
 def blank_attrs(x):
